@@ -202,8 +202,12 @@ def finish (pre : List Rg) (q : SubRes) : List Rg :=
     | none => pre ++ q.l
     | some f => removeranges (pre ++ q.l) f q.rt
 
-theorem sub_eq_finish (l : RS) (st en : Int) : sub l st en = finish [] (subLoop st en l 0 none 0) := by
-  rfl
+theorem sub_eq_finish (l : RS) (st en : Int) (hne : st ≠ en) :
+    sub l st en = finish [] (subLoop st en l 0 none 0) := by
+  unfold sub; rw [if_neg hne]; rfl
+
+theorem sub_empty (l : RS) (st : Int) : sub l st st = l := by
+  unfold sub; rw [if_pos rfl]
 
 theorem finish_cons (pre : List Rg) (a : Rg) (q : SubRes) :
     finish pre ⟨a :: q.l, q.rf, q.rt, q.early⟩ = finish (pre ++ [a]) q := by
@@ -313,9 +317,10 @@ theorem finish_unmarked (st en : Int) (l : List Rg) : ∀ (b : Int) (pre : List 
 
 /-- `sub` as executed by the Go code (index bookkeeping, one final `removeranges`) equals
 the plain recursion on every well-formed set. -/
-theorem sub_eq_subS (l : RS) (st en : Int) (hwf : WF l) : sub l st en = subS st en l := by
+theorem sub_eq_subS (l : RS) (st en : Int) (hwf : WF l) (hne : st ≠ en) :
+    sub l st en = subS st en l := by
   obtain ⟨b, hb⟩ := hwf
-  rw [sub_eq_finish, finish_unmarked st en l b [] 0 hb rfl]; simp
+  rw [sub_eq_finish l st en hne, finish_unmarked st en l b [] 0 hb rfl]; simp
 
 /-- `x` lies strictly inside a stored range. -/
 def Inside (l : RS) (x : Int) : Prop := ∃ r ∈ l, r.s < x ∧ x < r.e
@@ -417,35 +422,34 @@ theorem subS_spec (st en : Int) (l : RS) : ∀ (b : Int), Chain b l → st ≤ e
 the difference with `[start, end)`. -/
 theorem mem_sub (l : RS) (st en : Int) (hwf : WF l) (h : st ≤ en) (x : Int) :
     Mem (sub l st en) x ↔ (Mem l x ∧ ¬ (st ≤ x ∧ x < en)) := by
-  rw [sub_eq_subS l st en hwf]
-  obtain ⟨b, hb⟩ := hwf
-  exact (subS_spec st en l b hb h).1 x
-
-/-- **sub preserves well-formedness**, except for an empty range strictly inside a stored range. -/
-theorem wf_sub_partial (l : RS) (st en : Int) (hwf : WF l) (h : st ≤ en)
-    (hx : ¬ (st = en ∧ Inside l st)) : WF (sub l st en) := by
-  rw [sub_eq_subS l st en hwf]
-  obtain ⟨b, hb⟩ := hwf
-  refine ⟨b, (subS_spec st en l b hb h).2 ?_⟩
   by_cases he : st = en
-  · right; intro hi; exact hx ⟨he, hi⟩
-  · left; omega
+  · subst he; rw [sub_empty]
+    exact ⟨fun hm => ⟨hm, by omega⟩, fun hm => hm.1⟩
+  · rw [sub_eq_subS l st en hwf he]
+    obtain ⟨b, hb⟩ := hwf
+    exact (subS_spec st en l b hb h).1 x
 
-/-- **sub preserves well-formedness** for every non-empty range. -/
-theorem wf_sub (l : RS) (st en : Int) (hwf : WF l) (h : st < en) : WF (sub l st en) :=
-  wf_sub_partial l st en hwf (by omega) (by omega)
+/-- **sub preserves well-formedness** (sorted, non-empty, disjoint, non-adjacent) for every range,
+including the empty one. -/
+theorem wf_sub (l : RS) (st en : Int) (hwf : WF l) (h : st ≤ en) : WF (sub l st en) := by
+  by_cases he : st = en
+  · subst he; rw [sub_empty]; exact hwf
+  · rw [sub_eq_subS l st en hwf he]
+    obtain ⟨b, hb⟩ := hwf
+    exact ⟨b, (subS_spec st en l b hb h).2 (Or.inl (by omega))⟩
+
+/-- Kept for importers (the exclusion hypothesis is no longer needed since the repair). -/
+theorem wf_sub_partial (l : RS) (st en : Int) (hwf : WF l) (h : st ≤ en)
+    (_hx : ¬ (st = en ∧ Inside l st)) : WF (sub l st en) := wf_sub l st en hwf h
 
 /-- The literal statement "every `sub` keeps the ranges non-adjacent". -/
 def WfSubStatement : Prop := ∀ (l : RS) (st en : Int), WF l → st ≤ en → WF (sub l st en)
 
-/-- It is false for the code as it is: `sub(5,5)` splits `[0,10)` into `[0,5) [5,10)`. -/
-theorem wf_sub_full_false : ¬ WfSubStatement := by
-  intro h
-  have hw : WF [⟨0, 10⟩] := ⟨-1, by decide, by decide, trivial⟩
-  obtain ⟨b, hb⟩ := h [⟨0, 10⟩] 5 5 hw (by decide)
-  have : sub [⟨0, 10⟩] 5 5 = [⟨0, 5⟩, ⟨5, 10⟩] := by decide
-  rw [this] at hb
-  exact absurd hb.2.2.1 (by decide)
+/-- It holds (it was false before the repair of `sub`: `sub(5,5)` used to split `[0,10)`). -/
+theorem wf_sub_statement_holds : WfSubStatement := fun l st en hwf h => wf_sub l st en hwf h
+
+/-- The old witness now satisfies the statement. -/
+example : sub [⟨0, 10⟩] 5 5 = [⟨0, 10⟩] := by decide
 
 /-! ### queries -/
 
@@ -772,11 +776,10 @@ theorem size_eq_card (l : RS) (hwf : WF l) (h : sizeZ l ≤ 9223372036854775807)
 
 /-! ### all histories -/
 
-/-- Contract of one operation in state `l`: a range has `start ≤ end`; the excluded region of the
-known finding is an empty `sub` strictly inside a stored range. -/
-def OpOk (l : RS) : Op → Prop
+/-- Contract of one operation: a range has `start ≤ end` (the state argument is kept for importers). -/
+def OpOk (_l : RS) : Op → Prop
   | .add st en => st ≤ en
-  | .sub st en => st ≤ en ∧ ¬ (st = en ∧ Inside l st)
+  | .sub st en => st ≤ en
 
 def Valid : List Op → RS → Prop
   | [], _ => True
@@ -801,7 +804,7 @@ theorem history_refines (ops : List Op) : ∀ (l : RS) (S : Int → Prop), WF l 
     apply ih (applyOp l op) (specStep S op) _ _ hv'
     · cases op with
       | add st en => exact wf_add l st en hwf hok
-      | sub st en => exact wf_sub_partial l st en hwf hok.1 hok.2
+      | sub st en => exact wf_sub l st en hwf hok
     · intro x
       cases op with
       | add st en =>
@@ -809,14 +812,14 @@ theorem history_refines (ops : List Op) : ∀ (l : RS) (S : Int → Prop), WF l 
         rw [mem_add l st en hwf hok x, hm x]
       | sub st en =>
         show Mem (sub l st en) x ↔ (S x ∧ ¬ (st ≤ x ∧ x < en))
-        rw [mem_sub l st en hwf hok.1 x, hm x]
+        rw [mem_sub l st en hwf hok x, hm x]
 
-/-- Operations on proper ranges: `add` of any `start ≤ end`, `sub` of a non-empty range. -/
-def Strict : Op → Prop
+/-- Operations on ranges: `start ≤ end` (empty ranges included). -/
+def Ordered : Op → Prop
   | .add st en => st ≤ en
-  | .sub st en => st < en
+  | .sub st en => st ≤ en
 
-theorem valid_of_strict (ops : List Op) : ∀ l, (∀ op ∈ ops, Strict op) → Valid ops l := by
+theorem valid_of_ordered (ops : List Op) : ∀ l, (∀ op ∈ ops, Ordered op) → Valid ops l := by
   induction ops with
   | nil => intro _ _; trivial
   | cons op ops ih =>
@@ -825,34 +828,26 @@ theorem valid_of_strict (ops : List Op) : ∀ l, (∀ op ∈ ops, Strict op) →
     have := h op List.mem_cons_self
     cases op with
     | add st en => exact this
-    | sub st en =>
-      have h' : st < en := this
-      exact ⟨by omega, by omega⟩
+    | sub st en => exact this
 
-/-- **C24 over all histories** (proper ranges): after any sequence of `add`/`sub` the list is sorted,
-non-empty ranges, disjoint, non-adjacent, and denotes exactly the mathematical set. -/
-theorem history_correct (ops : List Op) (h : ∀ op ∈ ops, Strict op) :
+/-- **C24 over all histories**: after any sequence of `add`/`sub` of ranges (`start ≤ end`) the list is
+sorted, non-empty ranges, disjoint, non-adjacent, and denotes exactly the mathematical set. -/
+theorem history_correct (ops : List Op) (h : ∀ op ∈ ops, Ordered op) :
     WF (run ops []) ∧ ∀ x, Mem (run ops []) x ↔ specRun ops (fun _ => False) x :=
-  history_refines ops [] (fun _ => False) ⟨0, trivial⟩ (fun x => by simp) (valid_of_strict ops [] h)
-
-/-- The same with the exact excluded region of the finding (`_partial`: empty `sub` strictly
-inside a range is excluded). -/
-theorem history_correct_partial (ops : List Op) (h : Valid ops []) :
-    WF (run ops []) ∧ ∀ x, Mem (run ops []) x ↔ specRun ops (fun _ => False) x :=
-  history_refines ops [] (fun _ => False) ⟨0, trivial⟩ (fun x => by simp) h
+  history_refines ops [] (fun _ => False) ⟨0, trivial⟩ (fun x => by simp) (valid_of_ordered ops [] h)
 
 /-- Query answers after any history are those of the mathematical set. -/
-theorem history_contains (ops : List Op) (h : Valid ops []) (x : Int) :
+theorem history_contains (ops : List Op) (h : ∀ op ∈ ops, Ordered op) (x : Int) :
     contains (run ops []) x = true ↔ specRun ops (fun _ => False) x := by
-  obtain ⟨hw, hm⟩ := history_correct_partial ops h
+  obtain ⟨hw, hm⟩ := history_correct ops h
   rw [contains_iff _ hw x, hm x]
 
 /-- Two histories that denote the same set produce the same list (representation is canonical). -/
-theorem history_canonical (ops ops' : List Op) (h : Valid ops []) (h' : Valid ops' [])
+theorem history_canonical (ops ops' : List Op) (h : ∀ op ∈ ops, Ordered op) (h' : ∀ op ∈ ops', Ordered op)
     (hs : ∀ x, specRun ops (fun _ => False) x ↔ specRun ops' (fun _ => False) x) :
     run ops [] = run ops' [] := by
-  obtain ⟨hw, hm⟩ := history_correct_partial ops h
-  obtain ⟨hw', hm'⟩ := history_correct_partial ops' h'
+  obtain ⟨hw, hm⟩ := history_correct ops h
+  obtain ⟨hw', hm'⟩ := history_correct ops' h'
   exact canonical _ _ hw hw' (fun x => by rw [hm x, hm' x, hs x])
 
 /-- The literal statement of C24 (every op with `start ≤ end`). -/
@@ -860,17 +855,18 @@ def HistoryStatement : Prop :=
   ∀ ops : List Op, (∀ op ∈ ops, match op with | .add st en => st ≤ en | .sub st en => st ≤ en) →
     WF (run ops [])
 
-/-- It is false for the code as it is: `add 0 10; sub 5 5` leaves `[0,5) [5,10)`. -/
-theorem history_full_false : ¬ HistoryStatement := by
-  intro h
-  have h1 := h [.add 0 10, .sub 5 5] (by
-    intro op hop
-    simp only [List.mem_cons, List.mem_nil_iff, or_false] at hop
-    rcases hop with e | e <;> subst e <;> decide)
-  have : run [.add 0 10, .sub 5 5] [] = [⟨0, 5⟩, ⟨5, 10⟩] := by decide
-  rw [this] at h1
-  obtain ⟨b, hb⟩ := h1
-  exact absurd hb.2.2.1 (by decide)
+/-- It holds at full strength (false before the repair: `add 0 10; sub 5 5` left `[0,5) [5,10)`). -/
+theorem history_statement_holds : HistoryStatement := by
+  intro ops h
+  refine (history_correct ops ?_).1
+  intro op hop
+  have := h op hop
+  cases op with
+  | add st en => exact this
+  | sub st en => exact this
+
+/-- The old witness now satisfies the statement. -/
+example : run [.add 0 10, .sub 5 5] [] = [⟨0, 10⟩] := by decide
 
 /-! ### non-vacuity -/
 
@@ -878,19 +874,12 @@ example : WF [⟨0, 5⟩, ⟨7, 9⟩] := ⟨-1, by decide, by decide, by decide,
 example : add [⟨0, 5⟩, ⟨7, 9⟩, ⟨20, 30⟩] 5 8 = [⟨0, 9⟩, ⟨20, 30⟩] := by decide
 example : sub [⟨0, 9⟩, ⟨20, 30⟩] 3 25 = [⟨0, 3⟩, ⟨25, 30⟩] := by decide
 example : sub [⟨0, 2⟩, ⟨4, 6⟩, ⟨8, 9⟩, ⟨20, 30⟩] 1 25 = [⟨0, 1⟩, ⟨25, 30⟩] := by decide
-example : Valid [.add 0 10, .sub 3 5, .add 4 4, .sub 10 10] [] := by
-  refine ⟨by show (0:Int) ≤ 10; decide, ⟨by show (3:Int) ≤ 5; decide, by rintro ⟨h, _⟩; exact absurd h (by decide)⟩,
-    by show (4:Int) ≤ 4; decide, ⟨by show (10:Int) ≤ 10; decide, ?_⟩, trivial⟩
-  rintro ⟨_, r, hr, h1, h2⟩
-  have : applyOp (applyOp (applyOp [] (.add 0 10)) (.sub 3 5)) (.add 4 4) = [⟨0, 3⟩, ⟨5, 10⟩] := by decide
-  rw [this] at hr
-  simp only [List.mem_cons, List.mem_nil_iff, or_false] at hr
-  rcases hr with e | e <;> subst e <;> simp at h1 h2 <;> omega
-example : ∀ op ∈ [Op.add 0 10, Op.sub 3 5], Strict op := by
+example : ∀ op ∈ [Op.add 0 10, Op.sub 3 5, Op.sub 4 4], Ordered op := by
   intro op hop
   simp only [List.mem_cons, List.mem_nil_iff, or_false] at hop
-  rcases hop with e | e <;> subst e
+  rcases hop with e | e | e <;> subst e
   · show (0:Int) ≤ 10; decide
-  · show (3:Int) < 5; decide
+  · show (3:Int) ≤ 5; decide
+  · show (4:Int) ≤ 4; decide
 
 end NetVerif.Proofs.C24
